@@ -65,7 +65,17 @@ def replay_field_op(doc, op):
 
 class EditProp(Prop):
     para_ops = False
+    extra_props_files = ["props/C04H.v"]       # store-level handle aliasing (docs/cones/C04H.md)
+    def store_streams(self, tier, rng):
+        from .. import gen_store
+        n = {"quick": 6000, "search": 20000, "thorough": 100000}[tier]
+        yield "deb822-store", gen_store.corpus_cases()
+        yield "deb822-store", gen_store.store_cases(n, rng, "h")
+        yield "deb822-store", gen_store.store_cases(n // 3, rng, "a", wf=False, canon=False)
     def oracle(self, stream, fields, impl):
+        if stream == "deb822-store":
+            from .c04h import PROP as H
+            return H.oracle(stream, fields, impl)
         if impl in ("PANIC", "HANG", "ABORT", "MISSING"):
             return "implementation " + impl
         if stream.endswith("-any"):
@@ -134,7 +144,7 @@ class EditProp(Prop):
 
 class C04(EditProp):
     id = "C04"
-    coq_targets = ["props/C04.vo"]
+    coq_targets = ["props/C04.vo", "props/C04H.vo"]
     props_file = "props/C04.v"
     design_ref = "DESIGN.md §4 C04, §8"
     level_text = ("Coq theorems: (1) refinement for EVERY tree, name, value and history: doc_items after the tree edits = the list edits "
@@ -143,8 +153,13 @@ class C04(EditProp):
                   "root untouched, set replaces exactly one entry or appends after terminating the last line (at most one LF added before it); "
                   "(3) every parsed well-formed document and every paragraph built from canonical pairs is a live document (LiveDoc.lwf); "
                   "(4) for every history with arguments in the domain, from every live document: the result is a live document whose printed "
-                  "text re-reads without error to the non-empty paragraphs the live object reports. Handle aliasing (rowan) is not a theorem: "
-                  "it is checked by the deb822-edit stream, which performs every edit through handles obtained before all earlier edits. "
+                  "text re-reads without error to the non-empty paragraphs the live object reports; (5) handle aliasing (props/C04H.v): a "
+                  "store-level model of the editing API (Deb822Store.v: mutable trees with node identities, splice_children / detach / attach as "
+                  "rowan 0.16.1 performs them) refines the pure model for every history issued through paragraph handles obtained at ANY "
+                  "earlier time - no panic, the document is the pure model's result with each edit applied where its handle's paragraph "
+                  "currently is, every handle keeps denoting its paragraph (a removed paragraph lives on detached: Dead), so (4) holds for "
+                  "such histories; the deb822-store stream runs that model against the code with four handle registers, and deb822-edit "
+                  "performs every edit through handles obtained before all earlier edits. "
                   "PARTIAL: rename of a field whose value is empty is outside theorem (4) (Entry::new then holds an empty VALUE token); it is "
                   "covered by (1), (2) and by the stream's re-read oracle.")
     level_note = "Model: Entry::new, Paragraph::{set,insert,remove,rename}, ensure_trailing_newline in src/lossless.rs over the rowan tree model (coq/model/Deb822Edit.v)."
@@ -158,5 +173,6 @@ class C04(EditProp):
         n = {"quick": 6000, "search": 20000, "thorough": 200000}[tier]
         yield "deb822-edit", gen_edit.edit_cases(n, rng, "e", para_ops=False)
         yield "deb822-edit-any", gen_edit.edit_cases(n // 3, rng, "a", para_ops=True, wf=False, canon=False)
+        yield from self.store_streams(tier, rng)
 
 PROP = C04()
